@@ -338,19 +338,34 @@ func c19cells(thorough bool) []C19Cell {
 		alts = append(alts, a)
 	}
 	var out []C19Cell
-	for _, gun := range []string{"http", "scenario", "http2"} {
-		per := 1
+	guns := []string{"http", "scenario", "http2"}
+	perOf := func(gun string) int {
 		if gun == "scenario" {
-			per = 3
+			return 3
 		}
-		shots := 3
+		return 1
+	}
+	shots := 3
+	// every single deviation first (this is the quick tier), pairs afterwards: a budget cap in thorough
+	// then cuts into the pairs, never into what quick covers
+	for _, gun := range guns {
+		per := perOf(gun)
 		for _, long := range []bool{true, false} {
 			out = append(out, C19Cell{Gun: gun, LongDef: long, Shots: shots})
 			out = append(out, C19Cell{Gun: gun, LongDef: long, Shots: shots, DebugLog: true})
 			for pos := 1; pos <= shots*per; pos++ {
 				for _, a := range alts {
 					out = append(out, C19Cell{Gun: gun, LongDef: long, Shots: shots, Devs: map[int]R19{pos: a}})
-					if thorough && pos <= per {
+				}
+			}
+		}
+	}
+	if thorough {
+		for _, long := range []bool{true, false} {
+			for _, gun := range []string{"http2", "http", "scenario"} {
+				per := perOf(gun)
+				for pos := 1; pos <= per; pos++ {
+					for _, a := range alts {
 						for _, b := range alts {
 							out = append(out, C19Cell{Gun: gun, LongDef: long, Shots: shots, Devs: map[int]R19{pos: a, pos + per: b}})
 						}
